@@ -89,25 +89,40 @@ Theorem C10_series_options_add_exactly : forall o a b,
 Proof. exact series_options_add_exactly. Qed.
 Print Assumptions C10_series_options_add_exactly.
 
-(* TypeBlocks.equals AS THE SOURCE HAS IT NOW (mask operands c10_cfg_tb) computes the specification
-   for every pair of block layouts -- three operand paths, mask, block walk -- under tb_dom *)
-Theorem C10_tb_refines : forall o a b,
-  tb_dom c10_cfg_tb o a b = true -> M_tb_equals c10_cfg_tb o a b = Ok (S_tb_equals o a b).
-Proof. exact (tb_refines c10_cfg_tb). Qed.
-Print Assumptions C10_tb_refines.
+(* the source combines the mask of self with the mask of other, without None, in TypeBlocks/Series/Index.equals,
+   and TypeBlocks.equals answers two column-less tables before it builds == (re-extracted on every run) *)
+Theorem C10_masks_in_source :
+  c10_cfg_tb = mcfg_correct /\ c10_cfg_series = mcfg_correct /\ c10_cfg_index = mcfg_correct.
+Proof. exact (conj eq_refl (conj eq_refl eq_refl)). Qed.
+Print Assumptions C10_masks_in_source.
 
-(* once the mask combines self with other (and two column-less tables are answered before ==), no condition on
-   the missing values or on the number of columns remains *)
-Theorem C10_tb_refines_fixed_mask : forall o a b,
+(* MAIN: TypeBlocks.equals AS THE SOURCE HAS IT NOW computes the specification for every pair of block layouts,
+   any number of columns (none included), any placement of NaN/NaT/None -- three operand paths, mask, block walk.
+   Hypotheses: the tables are rectangular (tb_wf) and NumPy does not rewrite NaT to None on the way (nat_dom). *)
+Theorem C10_tb_refines : forall o a b,
   tb_wf a && tb_wf b && nat_dom a b = true ->
-  M_tb_equals mcfg_correct o a b = Ok (S_tb_equals o a b).
+  M_tb_equals c10_cfg_tb o a b = Ok (S_tb_equals o a b).
 Proof.
   exact (fun o a b H => tb_refines mcfg_correct o a b
     (match andb_prop _ _ H with conj H1 H2 =>
        andb_true_intro (conj (andb_true_intro (conj (andb_true_intro (conj H1 eq_refl))
          (mask_dom_correct (o_skipna o) (tb_vals a) (tb_vals b)))) H2) end)).
 Qed.
-Print Assumptions C10_tb_refines_fixed_mask.
+Print Assumptions C10_tb_refines.
+
+(* hence TypeBlocks.equals of the source is symmetric *)
+Theorem C10_tb_equals_impl_sym : forall o a b,
+  tb_wf a && tb_wf b && nat_dom a b = true -> tb_wf b && tb_wf a && nat_dom b a = true ->
+  M_tb_equals c10_cfg_tb o a b = M_tb_equals c10_cfg_tb o b a.
+Proof. exact tb_impl_sym. Qed.
+Print Assumptions C10_tb_equals_impl_sym.
+
+(* for ANY mask configuration the model equals S under tb_dom (whose mask clause says: the mask built marks exactly
+   the positions where both sides are missing) *)
+Theorem C10_tb_refines_any_mask : forall c o a b,
+  tb_dom c o a b = true -> M_tb_equals c o a b = Ok (S_tb_equals o a b).
+Proof. exact tb_refines. Qed.
+Print Assumptions C10_tb_refines_any_mask.
 
 (* the answer does not depend on the block layout of either operand *)
 Theorem C10_tb_layout_independent : forall o a b a' b',
@@ -128,12 +143,8 @@ Theorem C10_bus_refines : forall o a b,
 Proof. exact (bus_refines c10_cfgs). Qed.
 Print Assumptions C10_bus_refines.
 
-(* Series.equals / Index.equals: the source combines the mask of self with the mask of other,
-   so their mask guard is void; what remains is the NaT->None rewriting of NumPy *)
-Theorem C10_series_index_mask_in_source : c10_cfg_series = mcfg_correct /\ c10_cfg_index = mcfg_correct.
-Proof. exact (conj eq_refl eq_refl). Qed.
-Print Assumptions C10_series_index_mask_in_source.
-
+(* Series.equals / Index.equals: their mask guard is void (C10_masks_in_source); what remains is the NaT->None
+   rewriting of NumPy *)
 Theorem C10_index_refines : forall o a b,
   col_inert (okind_of (ei_dtype a), ei_labels a) (okind_of (ei_dtype b), ei_labels b) = true ->
   M_index_equals c10_cfgs o a b = S_index_equals o a b.
